@@ -176,6 +176,9 @@ def xmdOp (op : String) (a : List String) : Option (List String) :=
         (enumFrom' TraceFacts.multiplyAlternatives).flatMap (fun (i, t) =>
           [kv s!"len{i}" (toString t.length), kv s!"h{i}" (toString (htr t))]))
   | "G.order", [] => some [kv "o" (showBytes Hand.Group.order), kv "s_o" (natHex N 32)]
+  | "G.consts", [] => some [kv "cs" Hand.Group.ciphersuite, kv "sl" (toString Hand.Group.scalarLength),
+      kv "el" (toString Hand.Group.elementLength), kv "s_cs" "secp256k1_XMD:SHA-256_SSWU_RO_",
+      kv "s_sl" (toString (i2osp 0 32).length), kv "s_el" (toString (encodeCompressed G).length)]
   | "G.base", [] => some (ptOut Hand.ElementL.base ++ [kv "s_c" (encS G)])
   | _, _ => none
 
